@@ -251,8 +251,9 @@ func (n *Node) ObsState(u *Universe, o *Obs, opt StateObsOpts) {
 	o.Put("S.tip", "%s", hx(n.S.GetLatestBlockid()))
 	o.Put("S.total", "%s", n.S.GetTotal())
 	m := n.S.GetMeta()
-	o.Put("S.meta", "tip=%s total=%s maxblk=%d irr=%d win=%d newacct=%d gas=%v reserved=%d forbidden=%v group=%v",
-		hx(m.LatestBlockid), m.UtxoTotal, m.MaxBlockSize, m.IrreversibleBlockHeight, m.IrreversibleSlideWindow, m.NewAccountResourceAmount,
+	o.Put("S.meta.irr", "%d", m.IrreversibleBlockHeight)
+	o.Put("S.meta", "tip=%s total=%s maxblk=%d win=%d newacct=%d gas=%v reserved=%d forbidden=%v group=%v",
+		hx(m.LatestBlockid), m.UtxoTotal, m.MaxBlockSize, m.IrreversibleSlideWindow, m.NewAccountResourceAmount,
 		m.GasPrice, len(m.ReservedContracts), m.ForbiddenContract != nil, m.GroupChainContract != nil)
 	for _, a := range u.Addrs {
 		b1, e1 := n.S.GetBalance(a)
@@ -277,7 +278,8 @@ func (n *Node) ObsState(u *Universe, o *Obs, opt StateObsOpts) {
 		it := db.NewIteratorWithPrefix([]byte(tbl))
 		for it.Next() {
 			k := string(it.Key())
-			if tbl == "M" && !strings.HasPrefix(k, "M") {
+			if tbl == "M" && len(it.Value()) == 0 {
+				// an empty record is the zero value of the governed parameter: same meaning as an absent one
 				continue
 			}
 			o.Put("S.raw."+tbl+"."+printable(k), "%x", it.Value())
